@@ -14,3 +14,114 @@ package eval
 //@     invariant [range] (and (<= -1 $rangeindex) (< $rangeindex (ite (= (len $params) 0) 1 (len $params))))
 //@     invariant [none-before] (forall ((k Int)) (=> (and (<= 0 k) (<= k $rangeindex)) (not (= (idx $params k) $target))))
 //@     decreases (- (len $params) $rangeindex)
+
+// ---------------------------------------------------------------------------
+// C18 — scalar operators.  Val constructors: V_int64 / V_bool / V_string /
+// V_slice_int64 / V_slice_string / V_map_string_struct / V_map_int64_struct /
+// V_dne (testers is.<t>, selectors p_<t>).  mode constants: add=0 sub=1 mul=2
+// div=3 mod=4 and=5 or=6 xor=7 ... greater=11 less=12 greaterEquals=13
+// lessEquals=14.  mul64/div64/rem64 are Go's wrapped *, truncated / and %
+// (opaque; revealed only in the lemmas that need their definition).
+
+//@ ghost (define-fun-rec foldArith ((m Int) (a (Array Int Val)) (o Int) (n Int)) Int
+//@   (ite (<= n 1) (p_int64 (select a o))
+//@     (let ((p (foldArith m a o (- n 1))) (v (p_int64 (select a (+ o (- n 1))))))
+//@       (ite (= m 0) (wrapS64 (+ p v)) (ite (= m 1) (wrapS64 (- p v)) (ite (= m 2) (wrapS64 (mul64 p v))
+//@         (ite (= m 3) (wrapS64 (div64 p v)) (wrapS64 (rem64 p v)))))))))
+//@ ghost (define-fun arithOK ((m Int) (a (Array Int Val)) (o Int) (n Int)) Bool
+//@   (forall ((j Int)) (! (=> (and (<= o j) (< j (+ o n)))
+//@      (and (is.int64 (select a j)) (=> (and (>= m 3) (> j o)) (not (= (p_int64 (select a j)) 0))))) :pattern ((select a j)))))
+
+//@ func arithmetic.execute C18 C06
+//@   requires [mode] (and (<= 0 (fld $a mode)) (<= (fld $a mode) 4))
+//@   ensures [arity] (=> (< (len $params) 2) (not (= $ret1 ENil)))
+//@   ensures [ok-iff] (= (= $ret1 ENil) (and (>= (len $params) 2) (arithOK (fld $a mode) (arr $params) (off $params) (len $params))))
+//@   ensures [fold] (=> (= $ret1 ENil) (= $ret0 (V_int64 (foldArith (fld $a mode) (arr $params) (off $params) (len $params)))))
+//@   loop 1 (rangeindex)
+//@     invariant [range] (and (<= -1 $rangeindex) (< $rangeindex (len $params)) (>= (len $params) 2))
+//@     invariant [ok-prefix] (arithOK (fld $a mode) (arr $params) (off $params) (+ $rangeindex 1))
+//@     invariant [fold-prefix] (=> (>= $rangeindex 0) (= $res (foldArith (fld $a mode) (arr $params) (off $params) (+ $rangeindex 1))))
+//@     decreases (- (len $params) $rangeindex)
+
+//@ ghost (define-fun-rec foldLogic ((m Int) (a (Array Int Val)) (o Int) (n Int)) Bool
+//@   (ite (<= n 1) (p_bool (select a o))
+//@     (let ((p (foldLogic m a o (- n 1))) (v (p_bool (select a (+ o (- n 1))))))
+//@       (ite (= m 5) (and p v) (ite (= m 6) (or p v) (xor p v))))))
+//@ ghost (define-fun allBool ((a (Array Int Val)) (o Int) (n Int)) Bool
+//@   (forall ((j Int)) (! (=> (and (<= o j) (< j (+ o n))) (is.bool (select a j))) :pattern ((select a j)))))
+
+//@ func logic.execute C18 C06
+//@   requires [mode] (and (<= 5 (fld $c mode)) (<= (fld $c mode) 7))
+//@   ensures [arity] (=> (< (len $params) 2) (not (= $ret1 ENil)))
+//@   ensures [ok-iff] (= (= $ret1 ENil) (and (>= (len $params) 2) (allBool (arr $params) (off $params) (len $params))))
+//@   ensures [fold] (=> (= $ret1 ENil) (= $ret0 (V_bool (foldLogic (fld $c mode) (arr $params) (off $params) (len $params)))))
+//@   loop 1 (rangeindex)
+//@     invariant [range] (and (<= -1 $rangeindex) (< $rangeindex (len $params)) (>= (len $params) 2))
+//@     invariant [ok-prefix] (allBool (arr $params) (off $params) (+ $rangeindex 1))
+//@     invariant [fold-prefix] (=> (>= $rangeindex 0) (= $res (foldLogic (fld $c mode) (arr $params) (off $params) (+ $rangeindex 1))))
+//@     decreases (- (len $params) $rangeindex)
+
+//@ func logicNot C18 C06
+//@   ensures [ok-iff] (= (= $ret1 ENil) (and (= (len $params) 1) (is.bool (idx $params 0))))
+//@   ensures [value] (=> (= $ret1 ENil) (= $ret0 (V_bool (not (p_bool (idx $params 0))))))
+
+//@ ghost (define-fun cmpSpec ((m Int) (i Int) (j Int)) Bool
+//@   (ite (= m 11) (> i j) (ite (= m 12) (< i j) (ite (= m 13) (>= i j) (<= i j)))))
+
+//@ func comparison.execute C18 C06
+//@   requires [mode] (and (<= 11 (fld $c mode)) (<= (fld $c mode) 14))
+//@   ensures [ok-iff] (= (= $ret1 ENil) (and (= (len $params) 2) (is.int64 (idx $params 0)) (is.int64 (idx $params 1))))
+//@   ensures [value] (=> (= $ret1 ENil) (= $ret0 (V_bool (cmpSpec (fld $c mode) (p_int64 (idx $params 0)) (p_int64 (idx $params 1))))))
+
+//@ func comparisonBetween C18 C06
+//@   ensures [ok-iff] (= (= $ret1 ENil) (and (= (len $params) 3) (is.int64 (idx $params 0)) (is.int64 (idx $params 1)) (is.int64 (idx $params 2))))
+//@   ensures [value] (=> (= $ret1 ENil) (= $ret0 (V_bool (and (<= (p_int64 (idx $params 1)) (p_int64 (idx $params 0))) (<= (p_int64 (idx $params 0)) (p_int64 (idx $params 2)))))))
+
+//@ lemma cmp-duality C18
+//@   (declare-const i Int) (declare-const j Int)
+//@   (assert (not (and (= (cmpSpec 14 i j) (not (cmpSpec 11 i j))) (= (cmpSpec 13 i j) (not (cmpSpec 12 i j))))))
+//@ lemma between-is-ge-and-le C18
+//@   (declare-const v Int) (declare-const a Int) (declare-const b Int)
+//@   (assert (not (= (and (<= a v) (<= v b)) (and (cmpSpec 13 v a) (cmpSpec 14 v b)))))
+//@ lemma div-minint-wraps C18
+//@   ; with the definitions revealed: MinInt64 / -1 wraps to MinInt64, MinInt64 % -1 is 0, truncation toward zero, sign of remainder follows the dividend
+//@   (assert (forall ((a Int) (b Int)) (! (= (div64 a b) (tdiv a b)) :pattern ((div64 a b)))))
+//@   (assert (forall ((a Int) (b Int)) (! (= (rem64 a b) (trem a b)) :pattern ((rem64 a b)))))
+//@   (assert (not (and (= (wrapS64 (div64 (- 9223372036854775808) (- 1))) (- 9223372036854775808))
+//@                     (= (wrapS64 (rem64 (- 9223372036854775808) (- 1))) 0)
+//@                     (= (div64 (- 7) 2) (- 3)) (= (rem64 (- 7) 2) (- 1)) (= (div64 7 (- 2)) (- 3)) (= (rem64 7 (- 2)) 1))))
+
+// eq / ne: Val equality.  Values of the supported types (DESIGN 3): nil, bool, int64, string,
+// []int64, []string, the two pre-built set types, DNE.  Lists and sets are not comparable with ==.
+//@ ghost (define-fun supported ((v Val)) Bool (or (= v VNil) (is.bool v) (is.int64 v) (is.string v) (is.slice_int64 v) (is.slice_string v)
+//@   (is.map_string_struct v) (is.map_int64_struct v) (is.dne v)))
+//@ ghost (define-fun uncomparable ((v Val)) Bool (or (is.slice_int64 v) (is.slice_string v) (is.map_string_struct v) (is.map_int64_struct v)))
+//@ ghost (define-fun allSupported ((a (Array Int Val)) (o Int) (n Int)) Bool
+//@   (forall ((j Int)) (! (=> (and (<= o j) (< j (+ o n))) (supported (select a j))) :pattern ((select a j)))))
+//@ ghost (define-fun allEqFirst ((a (Array Int Val)) (o Int) (n Int)) Bool
+//@   (forall ((j Int)) (! (=> (and (<= o j) (< j (+ o n))) (= (select a j) (select a o))) :pattern ((select a j)))))
+//@ ghost (define-fun noneUncomparable ((a (Array Int Val)) (o Int) (n Int)) Bool
+//@   (forall ((j Int)) (! (=> (and (<= o j) (< j (+ o n))) (not (uncomparable (select a j)))) :pattern ((select a j)))))
+
+//@ func comparisonEquals C18 C06
+//@   requires [supported] (allSupported (arr $params) (off $params) (len $params))
+//@   ensures [arity] (=> (< (len $params) 2) (not (= $ret1 ENil)))
+//@   ensures [all-equal] (=> (= $ret1 ENil) (= $ret0 (V_bool (allEqFirst (arr $params) (off $params) (len $params)))))
+//@   ensures [scalars-ok] (=> (and (>= (len $params) 2) (noneUncomparable (arr $params) (off $params) (len $params))) (= $ret1 ENil))
+//@   ensures [error-means-list] (=> (and (>= (len $params) 2) (not (= $ret1 ENil))) (uncomparable (idx $params 0)))
+//@   loop 1 (rangeindex)
+//@     invariant [range] (and (<= -1 $rangeindex) (< $rangeindex (len $params)) (>= (len $params) 3))
+//@     invariant [eq-prefix] (allEqFirst (arr $params) (off $params) (+ $rangeindex 1))
+//@     decreases (- (len $params) $rangeindex)
+
+//@ func comparisonNotEquals C18 C06
+//@   requires [supported] (allSupported (arr $params) (off $params) (len $params))
+//@   ensures [arity] (=> (not (= (len $params) 2)) (not (= $ret1 ENil)))
+//@   ensures [value] (=> (= $ret1 ENil) (= $ret0 (V_bool (not (= (idx $params 0) (idx $params 1))))))
+//@   ensures [scalars-ok] (=> (and (= (len $params) 2) (noneUncomparable (arr $params) (off $params) 2)) (= $ret1 ENil))
+//@   ensures [error-means-list] (=> (and (= (len $params) 2) (not (= $ret1 ENil))) (and (uncomparable (idx $params 0)) (uncomparable (idx $params 1))))
+
+//@ lemma ne-is-not-eq C18
+//@   ; on two operands the value clauses of ne and eq are negations of each other
+//@   (declare-const a (Array Int Val)) (declare-const o Int)
+//@   (assert (not (= (not (= (select a o) (select a (+ o 1)))) (not (allEqFirst a o 2)))))
